@@ -2,6 +2,7 @@ import NssVerif.RealInst
 import NssVerif.Model.Config
 import NssVerif.Lemmas.Config
 import NssVerif.Lemmas.ConfigReal
+import NssVerif.Gen.Src.C15
 import Mathlib.Tactic.Ring
 import Mathlib.Tactic.FieldSimp
 import Mathlib.Tactic.NormNum
@@ -325,6 +326,181 @@ theorem exclude_none_not_roundtrip (c : Cfg ℝ) (wf : WF c) (hn : c.noNone) :
 /-- the hypotheses are satisfiable: the default configuration is well-formed and has no `None` section -/
 example : WF (Cfg.default : Cfg ℝ) ∧ (Cfg.default : Cfg ℝ).noNone := by
   refine ⟨⟨?_, ?_⟩, ?_⟩
+  · intro r h
+    simp only [Cfg.default, Detector.default, Option.some.injEq] at h
+    subst h
+    simp [Radio.default]; norm_num
+  · intro m v h; simp [Cfg.default, Simulation.default] at h
+  · simp [Cfg.noNone, Cfg.default, Detector.default, Simulation.default]
+
+
+/-! ### source tie: the classes of `config.py`, `create_toml` and `config_from_toml` as regenerated from the Python source
+(`Gen/Src/C15.lean`, harness/cfgtrans.py)
+
+`Gen.Src.C15.classes` is rebuilt on every run from the class BODIES of the working tree (fields in declaration order,
+annotations, defaults as written, every `field_validator` / `field_serializer` / `model_validator` with its target fields and
+recognised body), `default…` are the class defaults in the model's record types, `createToml` / `configFromToml` are assembled
+from the statements of the two functions.  The hand-written model is a set of functions; its schema is read off them by
+probes (`Model.Schema`): `shapes (dump c)`, `acceptsAt` (the loader run at the term algebra `Sym`: the same polymorphic
+`load` / `unitTable`).  The theorems below are about the GENERATED definitions. -/
+
+open Model.Schema
+
+/-- **defaults**: every class default written in the source is the model's (for every scalar type: at ℝ, and at the `Float` the
+driver runs) -/
+theorem src_defaults {α : Type} [Scalar α] : (Gen.Src.C15.defaultNssConfig : Cfg α) = Cfg.default := rfl
+
+/-- … including the defaults of the union members that are not the default member: they are what the model's loader fills in
+for a section that names only its tag -/
+theorem src_union_member_defaults {α : Type} [Scalar α] :
+    loadSpectrum (α := α) (some (.table [("id", .str "monospectrum")])) = .ok Gen.Src.C15.defaultSimulationMonoSpectrum ∧
+    loadSpectrum (α := α) (some (.table [("id", .str "powerspectrum")])) = .ok Gen.Src.C15.defaultSimulationPowerSpectrum ∧
+    loadCloud (α := α) (some (.table [("id", .str "no_cloud")])) = .ok Gen.Src.C15.defaultSimulationNoCloud ∧
+    loadCloud (α := α) (some (.table [("id", .str "monocloud")])) = .ok Gen.Src.C15.defaultSimulationMonoCloud ∧
+    loadCloud (α := α) (some (.table [("id", .str "pressure_map")])) = .ok Gen.Src.C15.defaultSimulationPressureMapCloud := by
+  refine ⟨rfl, rfl, rfl, rfl, rfl⟩
+
+/-- **field lists, kinds, written units, union tags**: for every pair of union tags found in the source, the model's loader
+accepts a tree naming just these tags, and the dump of what it builds has exactly the leaves the generated schema predicts —
+same fields in the same order, each a bare number / int / bool / the default string or Literal tag / a quantity string in the
+unit the field's serialiser writes -/
+theorem src_dump_schema :
+    ∀ st ∈ Gen.Src.C15.spectrumMembers, ∀ ct ∈ Gen.Src.C15.cloudModelMembers,
+      (variantCfg st.1 ct.1).map (fun c => shapes (dump c)) =
+        some (leaves Gen.Src.C15.classes (choiceOf st.1 ct.1) 6 Gen.Src.C15.root) := by
+  decide +kernel
+
+/-- the union members found in the source, with their `Literal` tags, are the model's variants -/
+theorem src_union_tags :
+    Gen.Src.C15.spectrumMembers.map (·.1) = ["monospectrum", "powerspectrum"] ∧
+    Gen.Src.C15.cloudModelMembers.map (·.1) = ["no_cloud", "monocloud", "pressure_map"] ∧
+    (∀ tm ∈ Gen.Src.C15.spectrumMembers ++ Gen.Src.C15.cloudModelMembers,
+      (findClass Gen.Src.C15.classes tm.2).bind tagOf = some tm.1) := by
+  decide +kernel
+
+/-- **validators**: every leaf field of kind `float` is probed in the model's loader with a quantity string in each of the five
+canonical units: the loader accepts it exactly when the source gives the field a unit validator (`parse_units(x, <unit>)`,
+mode "before") and the probe's unit has the dimension of the unit that validator converts to; a float field without a unit
+validator accepts no quantity string.  (Fields inside the two union sections carry no unit validator in the source; the probe
+tree names no tag, so they are rejected, which is what the schema predicts for them.) -/
+theorem src_validator_units :
+    ∀ pu ∈ floatLeaves Gen.Src.C15.classes (choiceOf "monospectrum" "monocloud") 6 Gen.Src.C15.root,
+      ∀ u ∈ canonicalUnits,
+        acceptsAt pu.1 u = (pu.2 != "" && dimOfUnit u == dimOfUnit pu.2 && (dimOfUnit u).isSome) := by
+  decide +kernel
+
+/-- **validator and serialiser are an inverse pair on every dimensional field**: every field that has a unit validator or a
+unit serialiser has both, on the same field of the same class; the serialiser attaches the unit the validator converts to;
+that unit is canonical in the model's table (factor literally 1, so a bare number means that unit); and the unit written has
+the same dimension, so the validator converts back what the serialiser wrote (with `deg_rad_inverse` for the one pair that
+differs: rad ↔ deg) -/
+theorem src_units_paired : ∀ f ∈ dimFields Gen.Src.C15.classes, f.paired = true := by
+  decide +kernel
+
+/-- the pairs found in the source, per (class, field): canonical unit and written unit — the model's `dump` writes these
+(`src_dump_schema`) and `load_dump` is proved for them -/
+theorem src_unit_pairs_written :
+    (dimFields Gen.Src.C15.classes).all (fun f => (f.sFrom, f.sTo) ∈
+      [("km", "km"), ("rad", "deg"), ("m2", "m2"), ("MHz", "MHz"), ("dB", "dB")]) = true := by
+  decide +kernel
+
+/-- **no serialiser other than the unit ones exists**: every `field_serializer` of every class is of the form
+`str(Quantity(x, unit))` / `str(Quantity(x, unit).to(unit'))` (a serialiser that rounds or rewrites a value is recorded by the
+reader as `.other <source>` and refutes this), and every serialised field is a `float` field -/
+theorem src_serializers_are_unit_pairs :
+    ∀ c ∈ Gen.Src.C15.classes, ∀ s ∈ c.serializers,
+      s.form.isUnits = true ∧ ∀ f ∈ s.fields, (c.fields.find? (·.name == f)).map (·.kind) = some .float := by
+  decide +kernel
+
+/-- every `field_validator` is a unit validator or the month validator, all run in mode "before", the month validator sits
+on `PressureMapCloud.month`; the only `model_validator` is the band check of `Detector.Radio`, in mode "after" -/
+theorem src_validators_known :
+    (∀ c ∈ Gen.Src.C15.classes, ∀ v ∈ c.validators, v.form.isKnown = true ∧ v.mode = "before" ∧
+      (v.form = .month → c.name = "Simulation.PressureMapCloud" ∧ v.fields = ["month"])) ∧
+    (Gen.Src.C15.classes.flatMap fun c => c.modelValidators.map fun m => (c.name, m.mode, m.form)) =
+      [("Detector.Radio", "after", .rejectIf "high_frequency" "<=" "low_frequency")] := by
+  decide +kernel
+
+/-! #### the band validator as read from the source -/
+
+/-- the comparison written in `validate_high_frequency` is the model's -/
+theorem src_band_compare {α : Type} [Scalar α] (lo hi : α) : Gen.Src.C15.bandRejects lo hi = Scalar.leb hi lo := rfl
+
+/-- an accepted radio section is not rejected by the comparison read from the source … -/
+theorem src_band_ok (t : Fields ℝ) (r : Radio ℝ) (h : loadRadio t = .ok r) :
+    Gen.Src.C15.bandRejects r.low_frequency r.high_frequency = false := by
+  have := band_increasing_of_ok t r h
+  simpa [Gen.Src.C15.bandRejects] using this
+
+/-- … and whatever that comparison rejects is rejected by the loader -/
+theorem src_band_inverted_rejected (t : Fields ℝ) (e : Bool) (lo hi s g : ℝ) (n : Int)
+    (h1 : getBool (Radio.default : Radio ℝ).enable (lookup "enable" t) = .ok e)
+    (h2 : getDim .freq (Radio.default : Radio ℝ).low_frequency (lookup "low_frequency" t) = .ok lo)
+    (h3 : getDim .freq (Radio.default : Radio ℝ).high_frequency (lookup "high_frequency" t) = .ok hi)
+    (h4 : getFloat (Radio.default : Radio ℝ).snr_threshold (lookup "snr_threshold" t) = .ok s)
+    (h5 : getInt (Radio.default : Radio ℝ).nantennas (lookup "nantennas" t) = .ok n)
+    (h6 : getDim .power (Radio.default : Radio ℝ).gain (lookup "gain" t) = .ok g)
+    (hrej : Gen.Src.C15.bandRejects lo hi = true) : loadRadio t = .error .band := by
+  refine band_inverted_rejected t e lo hi s g n h1 h2 h3 h4 h5 h6 ?_
+  simpa [Gen.Src.C15.bandRejects] using hrej
+
+/-! #### the month validator as read from the source -/
+
+/-- the strings accepted by the strptime formats found in the source (`%m`, `%B`, `%b`, whatever their order) name the same
+months as the model's table, and nothing else does -/
+theorem src_month_table :
+    (Gen.Src.C15.monthTable.all fun e => lookupC e.1 monthTable == some e.2) = true ∧
+    (monthTable.all fun e => lookupC e.1 Gen.Src.C15.monthTable == some e.2) = true := by
+  constructor <;> decide +kernel
+
+/-- hence a string is accepted as month `m` by the model exactly when its lower-cased spelling is a row of the table read
+from the source -/
+theorem src_month_string_accepts_exactly (cs : List Char) (m : Nat) :
+    monthOfChars cs = some m ↔ lookupC (cs.map Char.toLower) Gen.Src.C15.monthTable = some m := by
+  have h1 := src_month_table.1
+  have h2 := src_month_table.2
+  simp only [List.all_eq_true, beq_iff_eq] at h1 h2
+  unfold monthOfChars
+  constructor
+  · intro h
+    exact h2 _ (mem_of_lookupC_eq_some _ _ _ h)
+  · intro h
+    exact h1 _ (mem_of_lookupC_eq_some _ _ _ h)
+
+/-- the integer range written in the source (`date < 1 or date > 12` raises) is the model's -/
+theorem src_month_int_accepts_exactly {α : Type} (d m : Nat) (i : Int) :
+    getMonth (α := α) d (some (.int i)) = .ok m ↔ Gen.Src.C15.monthLo ≤ i ∧ i ≤ Gen.Src.C15.monthHi ∧ m = i.toNat :=
+  month_int_accepts_exactly d m i
+
+/-! #### `create_toml` / `config_from_toml` as read from the source -/
+
+/-- `create_toml` writes the plain `model_dump()` (no keyword; in particular not `exclude_none`, which
+`exclude_none_not_roundtrip` shows to be wrong) with the TOML writer, and does nothing else -/
+theorem src_createToml_eq_model {α : Type} [Scalar α] (c : Cfg α) : Gen.Src.C15.createToml c = tomlWrite (dump c) := rfl
+
+/-- `config_from_toml` validates the parsed tree and does nothing else: no exception is caught, nothing is substituted -/
+theorem src_configFromToml_eq_model {α : Type} [Scalar α] (t : Val α) : Gen.Src.C15.configFromToml t = load t := rfl
+
+theorem src_toml_plain : Gen.Src.C15.createTomlDumpKeywords = [] ∧ Gen.Src.C15.configFromTomlCaught = [] := by
+  decide +kernel
+
+/-- **load ∘ dump = id** restated for the two functions as read from the source: whenever `create_toml` can write the file,
+`config_from_toml` gives the configuration back — every field of the generated schema (`src_dump_schema`: the dump has
+exactly those fields; `src_units_paired`: every dimensional one is converted back), every spectrum and cloud variant -/
+theorem src_toml_roundtrip (c : Cfg ℝ) (wf : WF c) (t : Val ℝ) (h : Gen.Src.C15.createToml c = some t) :
+    Gen.Src.C15.configFromToml t = .ok c :=
+  toml_roundtrip c wf t h
+
+/-- … and it can be written exactly when no optional section is `None` (F8) -/
+theorem src_createToml_succeeds_iff (c : Cfg ℝ) : (Gen.Src.C15.createToml c).isSome ↔ c.noNone := by
+  rw [src_createToml_eq_model, ← writable_iff_noNone]
+  unfold tomlWrite
+  split <;> simp_all
+
+/-- non-vacuity: the default configuration as written in the source is well-formed, can be written, and comes back -/
+example : Gen.Src.C15.configFromToml (dump (Gen.Src.C15.defaultNssConfig : Cfg ℝ)) = .ok Gen.Src.C15.defaultNssConfig := by
+  rw [src_defaults]
+  refine src_toml_roundtrip _ ⟨?_, ?_⟩ _ (toml_write_succeeds _ ?_)
   · intro r h
     simp only [Cfg.default, Detector.default, Option.some.injEq] at h
     subst h
